@@ -20,20 +20,27 @@ def _init(pid):
     _P = importlib.import_module("props." + pid)
 
 
-def _work(case):
+def _run_impl_guarded(P, case):
     try:
-        return _P.run_impl(case)
+        return P.run_impl(case)
     except common.Infra as e:
         return {"infra": str(e)}
     except BaseException as e:  # noqa: B902
+        # the materialisers run to their end on the unchanged tree (every check runs them on every run): an exception
+        # escaping from one - typically raised by the library while a well-formed program is DEFINED - is an observation
+        # about the implementation, not an infrastructure problem
         import traceback
 
-        return {"infra": "impl runner crashed: %r\n%s" % (e, traceback.format_exc()[-1500:])}
+        return {"crash": "%r" % (e,), "traceback": traceback.format_exc()[-1500:]}
+
+
+def _work(case):
+    return _run_impl_guarded(_P, case)
 
 
 def impl_batch(P, pid, cases, workers):
     if getattr(P, 'WORKERS', None) == 1 or workers <= 1 or len(cases) < 200:
-        return [P.run_impl(c) for c in cases]
+        return [_run_impl_guarded(P, c) for c in cases]
     ctx = multiprocessing.get_context("fork")
     with ctx.Pool(workers, initializer=_init, initargs=(pid,)) as pool:
         return pool.map(_work, cases, chunksize=max(1, len(cases) // (workers * 8)))
@@ -96,6 +103,10 @@ def _evaluate_modelled(P, pid, tagged_cases, workers, acc):
             raise common.Infra(io["infra"])
         acc["evaluations"] += 1
         acc["by_tag"][tag] += 1
+        if "crash" in io:
+            violations.append({"tag": tag, "case": case, "fails": ["running the case on the implementation did not complete: %s" % io["crash"]],
+                               "cls": "unclassified", "impl": io, "model": mo, "tie_ok": False})
+            continue
         key = P.nontrivial_key(case, mo)
         if key is not None:
             acc["keys"].add(key)
@@ -135,9 +146,12 @@ def still_fails(P, case):
     if any("error" in m for m in mos):
         return None
     mo = mos if expand else mos[0]
-    io = P.run_impl(case)
+    io = _run_impl_guarded(P, case)
     if "infra" in io:
         return None
+    if "crash" in io:
+        return {"case": case, "fails": ["running the case on the implementation did not complete: %s" % io["crash"]], "cls": "unclassified",
+                "impl": io, "model": mo}
     fails = P.spec(case, mo, io)
     if fails:
         return {"case": case, "fails": fails, "cls": P.classify(case, mo, io, fails), "impl": io, "model": mo}
@@ -206,7 +220,11 @@ def run(P, pid, tier, seed, skip_gate=False):
         limit = nb.get("limit", 400) * (5 if thorough else 1)
         if len(pool) > limit:
             keep = set(lrng.sample(range(len(pool)), limit))
-            pool = [x for i, x in enumerate(pool) if i in keep or (isinstance(x[1], dict) and x[1].get("dom") == "directed")]
+            # hand-written streams of the neighbour (corner forms, layouts, scenarios) are always taken in full: the sample
+            # is drawn from its generated streams only
+            always = tuple(nb.get("always", ("special", "directed", "tricky", "shape", "late-decoration-shapes", "hostile")))
+            pool = [x for i, x in enumerate(pool) if i in keep or (isinstance(x[1], dict) and x[1].get("dom") == "directed")
+                    or str(x[0]).startswith(always)]
         pool = [("corpus:" + name, c["case"] if "case" in c else c) for name, c in common.load_corpus(lender)] + pool
         lacc = _new_acc()
         lvs, _ltb = evaluate(L, lender, pool, workers, lacc)
